@@ -21,6 +21,16 @@ func c18Invoice(country l10n.TaxCountryCode) *Invoice {
 	price := num.MakeAmount(1000, 2)
 	supplierID := map[l10n.TaxCountryCode]cbc.Code{"ES": "B98602642", "FR": "44732829320", "IT": "12345678903", "GR": "177472438", "DE": "111111125", "MX": "EKU9003173C9", "PT": "545259045", "PL": "9876543210"}
 	customerID := map[l10n.TaxCountryCode]cbc.Code{"ES": "54387763P", "FR": "44732829320", "IT": "13029381004", "GR": "841442160", "DE": "282741168", "MX": "URE180429TM6", "PT": "514329874", "PL": "1234567788"}
+	if country == "JP" {
+		// a country without a published regime: no regime on the document, explicit percentage
+		p10 := num.MakePercentage(100, 3)
+		return &Invoice{
+			Series: "A", Code: "1", Currency: "EUR", IssueDate: cal.MakeDate(2024, 1, 1),
+			Supplier: &org.Party{Name: "S", TaxID: &tax.Identity{Country: "JP", Code: "1234567890123"}},
+			Customer: &org.Party{Name: "C"},
+			Lines:    []*Line{{Quantity: num.MakeAmount(1, 0), Item: &org.Item{Name: "x", Price: &price}, Taxes: tax.Set{{Category: "VAT", Percent: &p10}}}},
+		}
+	}
 	return &Invoice{
 		Regime: tax.WithRegime(country), Series: "A", Code: "1", Currency: "EUR", IssueDate: cal.MakeDate(2024, 1, 1),
 		Supplier: &org.Party{Name: "S", TaxID: &tax.Identity{Country: country, Code: supplierID[country]}},
@@ -83,11 +93,18 @@ func H_C18_InvoiceReferences() {
 	switch vrt.Choice("replace", 7) {
 	case 0: // nothing replaced
 		vrt.Assert(inv.Validate() == nil, "base-invoice-validates")
-	case 1: // the currency: any three capital letters
+	case 1: // the currency: any three capital letters, on a document without a regime (where no conversion rule intervenes)
+		jp := c18Invoice("JP")
+		jp.Type = InvoiceTypeStandard
+		if err := calculate(jp); err != nil {
+			vrt.Assert(false, "regime-less-invoice-calculates")
+			return
+		}
+		vrt.Assert(jp.Validate() == nil, "regime-less-invoice-validates")
 		cur := c18Upper("cur", 3)
-		inv.Currency = currency.Code(cur)
-		err := inv.Validate()
-		vrt.Assert(err != nil || c18OneOf(cur, vrt.Published("currencies", "")), "accepted-currency-is-published")
+		jp.Currency = currency.Code(cur)
+		err := jp.Validate()
+		vrt.Assert(vrt.Iff(err == nil, c18OneOf(cur, vrt.Published("currencies", ""))), "currency-accepted-iff-published")
 	case 2: // the regime's country: any two capital letters
 		cc := c18Upper("cc", 2)
 		inv.Regime = tax.WithRegime(l10n.TaxCountryCode(cc))
